@@ -104,6 +104,21 @@ func newOperator(expr parser.Expr, storage *engstore.SelectorPool, opts *query.O
 			return function.NewHistogramOperator(model.NewVectorPool(stepsBatch), e.Args, nextOperators, stepsBatch)
 		}
 
+		if e.Func.Name == "timestamp" {
+			// timestamp() over a vector selector returns the timestamps of the selected
+			// samples, which only the selector itself knows.
+			next, err := newTimestampSelector(e.Args[0], storage, opts, hints)
+			if err != nil {
+				return nil, err
+			}
+			if next != nil {
+				keepValue := func(f function.FunctionArgs) promql.Sample {
+					return promql.Sample{Metric: f.Labels, Point: promql.Point{T: f.StepTime, V: f.Points[0].V}}
+				}
+				return function.NewFunctionOperator(e, keepValue, []model.VectorOperator{next}, stepsBatch, opts)
+			}
+		}
+
 		// TODO(saswatamcode): Tracked in https://github.com/thanos-community/promql-engine/issues/23
 		// Based on the category we can create an apt query plan.
 		call, err := function.NewFunctionCall(e.Func)
@@ -283,15 +298,54 @@ func unpackVectorSelector(t *parser.MatrixSelector) (*parser.VectorSelector, []*
 	}
 }
 
+// newTimestampSelector builds the operator for the argument of timestamp() when this argument is
+// a vector selector (possibly in parentheses or marked as step invariant). It returns nil otherwise.
+func newTimestampSelector(expr parser.Expr, storage *engstore.SelectorPool, opts *query.Options, hints storage.SelectHints) (model.VectorOperator, error) {
+	switch e := expr.(type) {
+	case *parser.ParenExpr:
+		return newTimestampSelector(e.Expr, storage, opts, hints)
+
+	case *parser.StepInvariantExpr:
+		next, err := newTimestampSelector(e.Expr, storage, opts.WithEndTime(opts.Start), hints)
+		if err != nil || next == nil {
+			return nil, err
+		}
+		return step_invariant.NewStepInvariantOperator(model.NewVectorPool(stepsBatch), next, e.Expr, opts, stepsBatch)
+
+	case *parser.VectorSelector:
+		start, end := getTimeRangesForVectorSelector(e, opts, 0)
+		hints.Start = start
+		hints.End = end
+		selector := storage.GetSelector(start, end, opts.Step.Milliseconds(), e.LabelMatchers, hints)
+		return newShardedSelector(selector, opts, e.Offset, true)
+
+	case *logicalplan.FilteredSelector:
+		start, end := getTimeRangesForVectorSelector(e.VectorSelector, opts, 0)
+		hints.Start = start
+		hints.End = end
+		selector := storage.GetFilteredSelector(start, end, opts.Step.Milliseconds(), e.LabelMatchers, e.Filters, hints)
+		return newShardedSelector(selector, opts, e.Offset, true)
+	}
+	return nil, nil
+}
+
 func newShardedVectorSelector(selector engstore.SeriesSelector, opts *query.Options, offset time.Duration) (model.VectorOperator, error) {
+	return newShardedSelector(selector, opts, offset, false)
+}
+
+func newShardedSelector(selector engstore.SeriesSelector, opts *query.Options, offset time.Duration, timestamps bool) (model.VectorOperator, error) {
 	numShards := runtime.GOMAXPROCS(0) / 2
 	if numShards < 1 {
 		numShards = 1
 	}
 	operators := make([]model.VectorOperator, 0, numShards)
 	for i := 0; i < numShards; i++ {
+		newSelector := scan.NewVectorSelector
+		if timestamps {
+			newSelector = scan.NewTimestampSelector
+		}
 		operator := exchange.NewConcurrent(
-			scan.NewVectorSelector(
+			newSelector(
 				model.NewVectorPool(stepsBatch), selector, opts, offset, i, numShards), 2)
 		operators = append(operators, operator)
 	}
